@@ -94,11 +94,13 @@ Fixpoint replay (l : list (entry * oracle)) (st : state) : state :=
 (* ---- the POST handler ----------------------------------------------------------------------- *)
 Definition body_limit : nat := 2048.
 
-(* data[:strings.IndexByte(data, '\n')] *)
-Fixpoint cut_newline (s : string) : string :=
+(* data[:strings.IndexAny(data, "\r\n\x00")] — the repaired handler (D6a) cuts at the first CR, LF or NUL *)
+Definition is_line_end (c : ascii) : bool :=
+  Ascii.eqb c "010"%char || Ascii.eqb c "013"%char || Ascii.eqb c "000"%char.
+Fixpoint cut_line (s : string) : string :=
   match s with
   | EmptyString => EmptyString
-  | String c r => if Ascii.eqb c "010"%char then EmptyString else String c (cut_newline r)
+  | String c r => if is_line_end c then EmptyString else String c (cut_line r)
   end.
 
 Inductive post_outcome :=
@@ -116,7 +118,7 @@ Definition post_handler (st : state) (sid : N) (body : string) : post_outcome :=
   | Some (data, cmid) =>
       if N.eqb (last_post st sid) cmid then PAck
       else if negb (st_leader st) then PProxy
-      else PPropose (mkEntry EIrc 0 sid cmid (cut_newline data) 0)
+      else PPropose (mkEntry EIrc 0 sid cmid (cut_line data) 0)
   end.
 
 (* ---- a node seen from outside: the log it has applied and its state ---------------------- *)
